@@ -94,10 +94,14 @@ class Trace:
         self.cfgs, self.labels = parse_case(case)
         self.outs = parse_out(out)
         self.viol = {}      # property -> description of the first failure
+        self.fp = {}        # property -> fingerprint of that failure (default "<prop>-predicate")
         self.run()
 
-    def fail(self, prop, what):
-        self.viol.setdefault(prop, what)
+    def fail(self, prop, what, fp=None):
+        if prop not in self.viol:
+            self.viol[prop] = what
+            if fp:
+                self.fp[prop] = fp
 
     def run(self):
         rwnd = [self.cfgs[0][0], self.cfgs[1][0]]
@@ -112,28 +116,45 @@ class Trace:
         link = [[], []]        # frames in flight per direction
         pushes = {}            # (fid, sender e) -> pushes on wire
         acked = {}             # (fid, sender e) -> credit returned by the peer's Acknowledge frames
+        open_calls = [0, 0]    # stream requests made by the application of each endpoint
+        accepted = [0, 0]      # streams handed to the accepting application of each endpoint
+        connect_at = {}        # (e, fid) -> label at which e last sent Connect fid
+        stale = [False, False] # endpoint e received a Reset/Acknowledge sent before its current Connect of that id
         for k, l in enumerate(self.labels):
             if k >= len(self.outs) or self.outs[k][0] is None:
                 break
             res, wakes, wa, wb, done = self.outs[k]
             op = l[0]
             emitted = [parse_msgs(wa), parse_msgs(wb)]
+            if op == 27 and res == [0]:
+                # a message put on the link towards endpoint l[1] by the harness (an adversarial peer)
+                if l[2] == 0:
+                    b, _ = lp(l, 3)
+                    m = (('frame', b[0] & 15, (b[1] << 24) | (b[2] << 16) | (b[3] << 8) | b[4], b[5:]) if len(b) >= 5 else ('raw', b))
+                else:
+                    m = ('ctl', l[2])
+                link[1 - l[1]].append((m, k))
             if op == 33:
                 d = 1 - l[1]
                 if res == [0, 0] and link[d]:
-                    m = link[d].pop(0)
+                    m, sent_at = link[d].pop(0)
                     if m[0] == 'frame' and m[1] in (2, 3):
                         got_end.add((l[1], m[2]))
+                    if m[0] == 'frame' and m[1] in (1, 2) and sent_at < connect_at.get((l[1], m[2]), -1):
+                        stale[l[1]] = True
             if op == 18:
                 d = l[1]
                 if res == [0] and link[d]:
-                    m = link[d].pop(0)
+                    m, sent_at = link[d].pop(0)
                     if m[0] == 'frame' and m[1] in (2, 3):
                         got_end.add((1 - d, m[2]))
+                    if m[0] == 'frame' and m[1] in (1, 2) and sent_at < connect_at.get((1 - d, m[2]), -1):
+                        stale[1 - d] = True
             for e in (0, 1):
                 for em in emitted[e]:
                     if em[0] == 'frame':
                         if em[1] == 0:
+                            connect_at[(e, em[2])] = k
                             # a new incarnation of this id: restart its accounting
                             for key in [(em[2], 0), (em[2], 1)]:
                                 pushes.pop(key, None)
@@ -152,11 +173,24 @@ class Trace:
                             if acked[key] > pushes.get(key, 0):
                                 self.fail('C03', "label %d: endpoint %d has acknowledged %d frames on flow %d but only %d were sent to it"
                                           % (k, e, acked[key], em[2], pushes.get(key, 0)))
-                    link[e].append(em)
+                    link[e].append((em, k))
             for i in range(0, len(done or []), 2):
                 if done[i] in (0, 1):
                     ended[done[i]] = True
             e = l[1] if len(l) > 1 else 0
+            if op == 10 and res[:1] in ([0], [1]):
+                open_calls[e] += 1
+            if op == 12 and res[:1] == [0] and len(res) >= 4:
+                accepted[e] += 1
+                if accepted[e] > open_calls[1 - e]:
+                    if stale[1 - e]:
+                        self.fail('C07', "label %d: endpoint %d's application has been handed %d streams although the peer made only %d requests: "
+                                  "the requester redrew a flow id whose earlier incarnation still had a Reset/Acknowledge in flight, took it for the "
+                                  "answer to its new Connect, retried under a fresh id, and the acceptor accepted both" % (k, e, accepted[e], open_calls[1 - e]),
+                                  "id-reuse-stale-answer")
+                    else:
+                        self.fail('C07', "label %d: endpoint %d's application has been handed %d streams although the peer made only %d requests"
+                                  % (k, e, accepted[e], open_calls[1 - e]))
             if op in (11, 10, 12) and res[:1] == [0] and len(res) >= 4:
                 sid, port = res[1], res[2]
                 host, j = lp(res, 3)
@@ -290,6 +324,19 @@ class MuxSpec(pure.Spec):
             return None
         return "+".join(sorted(feats))
 
+    def trace_violation(self, case, impl):
+        """the black-box predicates of this property on the implementation's trace, whether or not the
+        model agrees with it"""
+        if not case.startswith("30 ") or impl.strip() == "2000004":
+            return None
+        try:
+            tr = Trace(case, impl)
+        except Exception:
+            return None
+        if self.prop in tr.viol:
+            return tr.fp.get(self.prop, "%s-predicate" % self.prop), tr.viol[self.prop]
+        return None
+
     def classify(self, case, impl, model):
         if impl.strip() == "2000004":
             try:
@@ -305,7 +352,7 @@ class MuxSpec(pure.Spec):
         try:
             tr = Trace(case, impl)
             if self.prop in tr.viol:
-                return True, "%s-predicate" % self.prop, tr.viol[self.prop]
+                return True, tr.fp.get(self.prop, "%s-predicate" % self.prop), tr.viol[self.prop]
         except Exception as ex:  # a predicate that cannot be evaluated decides nothing
             pass
         if d is None:
